@@ -250,3 +250,55 @@ def concrete_playback(src, harness, extra_args=None, timeout=1800, group=None):
     r = run_kani(src, [harness], extra_args=(extra_args or []) + ["-Z", "concrete-playback", "--concrete-playback=print"], timeout=timeout, group=group)
     m = re.search(r"Concrete playback unit test for `[^`]*`:\n```\n(.*?)```", r["out"], re.S)
     return m.group(1) if m else None
+
+
+def playback(prop, group, unit_test, timeout=1800):
+    """replay a Kani counterexample natively (`cargo kani playback`): the generated unit test feeds the concrete values to
+    the harness compiled against the real code.  Returns {"reproduced": True|False|None, "tail": ...}."""
+    info = KANI_GROUPS[group]
+    m = re.search(r"fn (kani_concrete_playback_\w+)", unit_test)
+    if not m:
+        return {"reproduced": None, "tail": "no test function in the playback text"}
+    tname = m.group(1)
+    base = os.path.join(WORK, "playback", prop)
+    shutil.rmtree(base, ignore_errors=True)
+    os.makedirs(base, exist_ok=True)
+    hcopy = os.path.join(base, "harness_with_playback.rs")
+    with open(hcopy, "w") as f:
+        f.write(open(os.path.join(VERIF, "kani", info["file"])).read())
+        f.write("\n" + unit_test + "\n")
+    if "fragment_unit" in info:
+        src = os.path.join(base, "crate")
+        os.makedirs(os.path.join(src, "src"), exist_ok=True)
+        gen = gen_unit(info["fragment_unit"], None, outdir=os.path.join(WORK, "gen", prop), vac=False)
+        if gen["rc"] != 0:
+            return {"reproduced": None, "tail": "extraction failed"}
+        with open(os.path.join(src, "Cargo.toml"), "w") as f:
+            f.write(f'[package]\nname = "frag_{group}"\nversion = "0.0.0"\nedition = "2021"\n[lib]\npath = "src/lib.rs"\n[workspace]\n')
+        with open(os.path.join(src, "src", "lib.rs"), "w") as f:
+            f.write("#![allow(unused)]\n" + open(gen["rs"]).read())
+            f.write(f'\n#[cfg(kani)]\n#[path = "{hcopy}"]\nmod verif_kani_{group};\n')
+    else:
+        src = os.path.join(base, "crate")
+        os.makedirs(src, exist_ok=True)
+        subprocess.run(["rsync", "-rlp", "--checksum", "--delete", "--exclude", "target", "--exclude", ".git", REPO + "/", src + "/"], check=True)
+        if "incrate_unit" in info:
+            gen = gen_unit(info["incrate_unit"], None, outdir=os.path.join(WORK, "gen", prop), vac=False)
+            if gen["rc"] != 0:
+                return {"reproduced": None, "tail": "extraction failed"}
+            shutil.copyfile(gen["rs"], os.path.join(src, "src", f"verif_frag_{group}.rs"))
+        with open(os.path.join(src, info["attach"]), "a") as f:
+            f.write(f'\n#[cfg(kani)]\n#[path = "{hcopy}"]\nmod verif_kani_{group};\n')
+    cmd = ["cargo", "kani", "playback", "-Z", "concrete-playback"] + [a for a in (info.get("args") or []) if a in ("-Z", "stubbing")] + ["--", tname]
+    env = dict(os.environ, CARGO_NET_OFFLINE="true", CARGO_TARGET_DIR=os.path.join(KTARGET_ROOT, "playback-" + prop))
+    try:
+        p = subprocess.run(cmd, cwd=src, env=env, capture_output=True, text=True, timeout=timeout)
+    except subprocess.TimeoutExpired:
+        return {"reproduced": None, "tail": "timeout"}
+    out = p.stdout + p.stderr
+    res = re.search(r"test result: (\w+)\. (\d+) passed; (\d+) failed", out)
+    if not res:
+        return {"reproduced": None, "tail": out.strip()[-400:], "cmd": " ".join(cmd)}
+    failed = int(res.group(3)) > 0
+    panic = [l.strip() for l in out.splitlines() if "panicked at" in l or "assertion" in l][:3]
+    return {"reproduced": failed, "tail": " | ".join(panic)[:400] or res.group(0), "cmd": "CARGO_NET_OFFLINE=true " + " ".join(cmd), "test": tname}
